@@ -1,6 +1,8 @@
 """C07 family 5: IPv4 flow specification (AFI 1, SAFI 133), OR-ed operator lists."""
 import re
 
+import netaddr
+
 from props.c07 import Family, ip4, caddr, mask, coq_list, coq_bytes, coq_opt, size_targets
 
 CMP_TEXT = {1: '=', 2: '>', 3: '>=', 4: '<', 5: '<='}
@@ -148,7 +150,11 @@ class Flow4(Family):
                 cases[-1]['unencodable'] = 'flow specification rule longer than 4095 octets'
 
         def nh():
-            return rng.choice([None, rng.getrandbits(32), 0, 2 ** 32 - 1])
+            """no next hop ('' is what the code writes for a text that is not an address), an IPv4 one (an int) or
+            an IPv6 one ((int, True); 16 octets; kept at 2^32 or more: a smaller one reads back as IPv4 text)"""
+            return rng.choice([None, rng.getrandbits(32), 0, 2 ** 32 - 1,
+                               (rng.getrandbits(128) | 1 << 127, True), (0x20010db8 << 96 | 1, True), (2 ** 32, True),
+                               (2 ** 128 - 1, True), (0xffff << 32 | rng.getrandbits(32), True)])
         # every prefix length, destination and source
         for l in range(33):
             add('reach', [{'dst': pfx(l), 'src': None, 'ops': {}}], nh())
@@ -232,7 +238,9 @@ class Flow4(Family):
         nl = [self.flow_dict(f) for f in v['flows']]
         if case['kind'] == 'unreach':
             return {'afi_safi': (1, 133), 'withdraw': nl}
-        return {'afi_safi': (1, 133), 'nexthop': '' if v['nh'] is None else ip4(v['nh']), 'nlri': nl}
+        nh = v['nh']
+        text = '' if nh is None else (str(netaddr.IPAddress(nh[0], 6)) if isinstance(nh, (tuple, list)) else ip4(nh))
+        return {'afi_safi': (1, 133), 'nexthop': text, 'nlri': nl}
 
     @staticmethod
     def coq_flows(fs):
@@ -248,7 +256,10 @@ class Flow4(Family):
     def coq_construct(self, case):
         v = case['v']
         if case['kind'] == 'reach':
-            return 'sx_res sx_optbytes (reachfs_construct %s %s)' % (coq_opt(v['nh']), self.coq_flows(v['flows']))
+            nh = v['nh']
+            cnh = 'None' if nh is None else ('(Some (true, %d))' % nh[0] if isinstance(nh, (tuple, list))
+                                             else '(Some (false, %d))' % nh)
+            return 'sx_res sx_optbytes (reachfs_construct_x %s %s)' % (cnh, self.coq_flows(v['flows']))
         return 'sx_res sx_optbytes (unreachfs_construct %s)' % self.coq_flows(v['flows'])
 
     def coq_parse(self, case, octets):
@@ -277,7 +288,8 @@ class Flow4(Family):
             fl.append(x)
         if case['kind'] == 'unreach':
             return fl
-        return [[] if v['nh'] is None else [[4, v['nh']]], fl]
+        nh = v['nh']
+        return [[] if nh is None else [[6, nh[0]] if isinstance(nh, (tuple, list)) else [4, nh]], fl]
 
     def describe(self, case):
         return ' (rule bodies of %s octets)' % [body_size(f) for f in case['v']['flows']][:8]
